@@ -149,4 +149,13 @@ PROPS["C14"] = {
     "assumptions": ["recorded address = injective function of the peer id (property C04)", "a closed connection id is never admitted again"],
 }
 
+PROPS["C12"] = {
+    "harness": {"kind": "overlay", "pkg": "pkg/rpc/provider", "pkgname": "providerapi",
+                "files": ["provider/c12_test.go"], "test": "TestVerifC12", "race": True},
+    "level_text": "Theorems over arbitrary interleavings of the atomic steps (registration, hand-off, abandonment, decision; equal digests allowed; bid ids unique by construction): an invariant (a registered id sits under its own digest; an answered bid is no longer registered; delivered ids are duplicate-free) holds in every reachable state, hence every bid receives at most one status; a decision is delivered exactly to the bid registered under the digest it names, with its status; decisions for unknown, already answered or abandoned digests leave the state unchanged and the stream running; abandonment leaves no entry of that bid; invalid bids are never registered. Tied to the real Service (real protovalidate): the harness plays callers and engine, executes random plans and logs the realised atomic steps (the runtime decides which parked caller the engine takes), including the same digest decided on two decision streams at once with the first stream held between look-up and callback (through the logger it is given).",
+    "level_note": "Trusted: Lean kernel; harness (trace validation: the model replays the realised step list); protovalidate. An out-of-range status ends the decision stream with an error (outside the claim, modelled). A status delivered to a bid whose hand-off was abandoned stays unread in its buffered channel (modelled).",
+    "nontrivial_rule": "distinct realised step lists (tag, model outs); a run is non-trivial if it contains a decision for a registered digest",
+    "assumptions": ["critical sections under bidsMu and the unbuffered hand-off are the atomic steps"],
+}
+
 NOT_CLAIMED = {}
